@@ -11,7 +11,7 @@
      spec_col / spec_mat      the cell-by-cell specification as a column / matrix *)
 From HV Require Import Prelude Tracts C04_Model C04_Check C04_CheckSeq C04_Proofs C04_ProofsSet C04_ProofsFile C04_ProofsSpec
   C04_ProofsAnc C04_Legacy C04_ProofsPerm C04_ProofsDup C04_ProofsSeq C04_ProofsBp C04_ProofsOrder C04_ProofsTotal
-  C04_ModelOpt C04_CheckOpt C04_ProofsOpt C04_ProofsOptC.
+  C04_ModelOpt C04_CheckOpt C04_ProofsOpt C04_ProofsOptC C04_ModelIO C04_CheckIO C04_ProofsIO.
 From HV Require C05_Model.
 From Coq Require Import Permutation QArith.
 Open Scope Z_scope.
@@ -717,3 +717,120 @@ Theorem C04_model_passes_holds_o : forall rare mk md e t out,
   holds_o mk md (mkoc t e (Ok out) (warns_missing t)) = true.
 Proof. exact model_passes_holds_o_lemma. Qed.
 Print Assumptions C04_model_passes_holds_o.
+
+(* ============================================================================================================
+   Third round: below tinput - the lines of the .hap file and the names of the files.  Vocabulary (C04_ModelIO):
+     hline                  LH h (an H or R line) | LV k v (a V line naming haplotype k)
+     read_lines             the collection loop of Haplotypes.read over the lines in FILE order (dict assignment,
+                            setdefault/append per haplotype ID, KeyError for V lines that name no H/R line)
+     heads / vlines_of k    the H/R lines in order / the V lines naming k in order
+     bp_path_of             transform_haps' derivation of the breakpoints path from the genotypes path with pathlib's
+                            suffix / with_suffix, over code points; resolve_source: the ancestry source it then uses
+   ============================================================================================================ *)
+
+(* the loop = its closed form, for every list of lines (duplicate IDs, V lines without an H line included) *)
+Theorem C04_read_lines_spec : forall l, read_lines l = read_spec l.
+Proof. exact read_lines_spec_lemma. Qed.
+Print Assumptions C04_read_lines_spec.
+
+(* the layout of the file is irrelevant: only the sequence of H/R lines and, per haplotype ID, the sequence of the V
+   lines naming it matter - V lines of different haplotypes interleaved in any way, before or after the H lines *)
+Theorem C04_read_lines_layout_irrelevant : forall l l',
+  heads l = heads l' -> (forall k, vlines_of k l = vlines_of k l') -> read_lines l = read_lines l'.
+Proof. exact read_lines_layout_lemma. Qed.
+Print Assumptions C04_read_lines_layout_irrelevant.
+
+(* a haplotype list with distinct IDs, written in ANY layout that keeps those sequences, reads back as that list -
+   every haplotype with ALL its V lines (none dropped, whichever runs they come in) *)
+Theorem C04_read_lines_any_layout : forall H l,
+  NoDup (map h_id H) ->
+  heads l = map strip H -> (forall h, In h H -> vlines_of (h_id h) l = h_vars h) ->
+  (forall k, ~ In k (map h_id H) -> vlines_of k l = []) ->
+  read_lines l = Ok H.
+Proof. exact read_lines_any_layout_lemma. Qed.
+Print Assumptions C04_read_lines_any_layout.
+
+(* the hypotheses are satisfiable (the canonical layout), and instances: V lines round-robin over two haplotypes;
+   V lines before, between and after the H/R lines; a V line naming no haplotype -> KeyError *)
+Theorem C04_read_lines_canonical : forall H, NoDup (map h_id H) -> read_lines (lines_HV H) = Ok H.
+Proof. exact read_lines_HV_lemma. Qed.
+Print Assumptions C04_read_lines_canonical.
+
+Example C04_read_lines_example :
+  NoDup (map h_id [ex_h0; ex_r; ex_h1])
+  /\ read_lines [LH (strip ex_h0); LH ex_r; LH (strip ex_h1);
+                 LV 1 (mkhv 50 3); LV 2 (mkhv 50 2); LV 1 (mkhv 51 4); LV 2 (mkhv 51 4)] = Ok [ex_h0; ex_r; ex_h1]
+  /\ read_lines [LV 2 (mkhv 50 2); LV 1 (mkhv 50 3); LH (strip ex_h0); LV 2 (mkhv 51 4); LH ex_r; LH (strip ex_h1);
+                 LV 1 (mkhv 51 4)] = Ok [ex_h0; ex_r; ex_h1]
+  /\ read_lines [LH (strip ex_h0); LV 9 (mkhv 50 3)] = Err E_Key.
+Proof. exact read_lines_example. Qed.
+Print Assumptions C04_read_lines_example.
+
+(* the breakpoints file of <dir><stem>.<ext> and of <dir><stem>.<ext>.gz is <dir><stem>.bp - for EVERY stem (dots
+   included, only '/' excluded), every directory part (dots included) and every dot-free extension (vcf, bcf, pgen, VCF, ...):
+   exactly one suffix, or one suffix + ".gz", is replaced *)
+Theorem C04_bp_path_of_spec : forall d stem ext,
+  dir_part d -> stem <> [] -> ~ In c_slash stem ->
+  ext <> [] -> ~ In c_dot ext -> ~ In c_slash ext ->
+  (ext <> [103; 122] -> bp_path_of (d ++ stem ++ c_dot :: ext) = Ok (d ++ stem ++ s_bp))
+  /\ bp_path_of (d ++ stem ++ c_dot :: ext ++ s_gz) = Ok (d ++ stem ++ s_bp).
+Proof. exact bp_path_spec_lemma. Qed.
+Print Assumptions C04_bp_path_of_spec.
+
+(* "d.v1/cohort.chr1.vcf.gz" -> "d.v1/cohort.chr1.bp", "sim.v2.pgen" -> "sim.v2.bp", ".hidden.vcf" -> ".hidden.bp",
+   "x.vcf.vcf.gz" -> "x.vcf.bp", "a.b/c.d/g.bcf" -> "a.b/c.d/g.bp"; recorded: "x.VCF.GZ" -> "x.VCF.bp" (an upper-case
+   .GZ is not recognised), ".vcf" -> ".vcf.bp" (a leading dot starts no suffix), "d/" has no name *)
+Example C04_bp_path_examples :
+  bp_path_of [100;46;118;49;47;99;111;104;111;114;116;46;99;104;114;49;46;118;99;102;46;103;122]
+    = Ok [100;46;118;49;47;99;111;104;111;114;116;46;99;104;114;49;46;98;112]
+  /\ bp_path_of [115;105;109;46;118;50;46;112;103;101;110] = Ok [115;105;109;46;118;50;46;98;112]
+  /\ bp_path_of [46;104;105;100;100;101;110;46;118;99;102] = Ok [46;104;105;100;100;101;110;46;98;112]
+  /\ bp_path_of [120;46;118;99;102;46;118;99;102;46;103;122] = Ok [120;46;118;99;102;46;98;112]
+  /\ bp_path_of [97;46;98;47;99;46;100;47;103;46;98;99;102] = Ok [97;46;98;47;99;46;100;47;103;46;98;112]
+  /\ bp_path_of [120;46;86;67;70;46;71;90] = Ok [120;46;86;67;70;46;98;112]
+  /\ bp_path_of [46;118;99;102] = Ok [46;118;99;102;46;98;112]
+  /\ bp_path_of [100;47] = Err E_Value
+  /\ is_pgen [115;105;109;46;118;50;46;112;103;101;110] = true
+  /\ is_pgen [83;46;112;103;101;110;46;118;99;102;46;103;122] = false.
+Proof. exact bp_path_examples. Qed.
+Print Assumptions C04_bp_path_examples.
+
+(* with --ancestry the source is the .bp of that name when it exists, else the POP fields (VCF/BCF) or a refusal (PGEN);
+   a .bp under ANY other name - another data set's, a stale one - changes nothing *)
+Theorem C04_resolve_source_spec : forall gt p files,
+  bp_path_of gt = Ok p ->
+  resolve_source false gt files = SNone
+  /\ (forall t, file_tag p files = Some t -> resolve_source true gt files = SBp t)
+  /\ (file_tag p files = None ->
+      resolve_source true gt files = if is_pgen gt then SFail E_Value else SPop).
+Proof. exact resolve_source_spec_lemma. Qed.
+Print Assumptions C04_resolve_source_spec.
+
+Theorem C04_resolve_decoy_irrelevant : forall anc gt p q t files,
+  bp_path_of gt = Ok p -> q <> p ->
+  resolve_source anc gt ((q, t) :: files) = resolve_source anc gt files.
+Proof. exact resolve_decoy_lemma. Qed.
+Print Assumptions C04_resolve_decoy_irrelevant.
+
+(* the checker of the file relation: holds is C04_CheckOpt's, unchanged (check_filen c = (agree_o && io_agrees c,
+   holds_fileo): C04_holds_fileq_sound applies as before); the added agree clause, float-free, means: every .bp path
+   the run touched is bp_path_of of the genotypes path, the logical input's ancestry source is the resolved one
+   (POP fields only when no .bp of the derived name exists; a .bp only the one named after the genotypes), and
+   the lines as written read back as the logical input's haplotypes *)
+Theorem C04_io_agrees_sound : forall gt anc files seen lines t,
+  io_agrees_of gt anc files seen lines t = true ->
+  (forall p, In p seen -> bp_path_of gt = Ok p)
+  /\ src_agrees (resolve_source anc gt files) (t_anc t) = true
+  /\ (lines <> [] -> read_lines lines = Ok (t_haps t)).
+Proof. exact io_agrees_sound_lemma. Qed.
+Print Assumptions C04_io_agrees_sound.
+
+Theorem C04_src_agrees_meaning : forall s a,
+  src_agrees s a = true ->
+  match a with
+  | NoAnc => s = SNone
+  | PopField _ => s = SPop
+  | BpFile _ => s = SBp 0
+  end.
+Proof. exact src_agrees_meaning_lemma. Qed.
+Print Assumptions C04_src_agrees_meaning.
